@@ -240,6 +240,25 @@ def exec_op(ctx: Ctx, op: dict, rec: dict) -> Any:
             res["rolled_back"] = True
             return tx.rollback()
         return tx.commit()
+    if kind == "files_append":
+        # a PRE-BUILT parquet file: staged by the caller `age` virtual seconds before it is handed to a transaction
+        # with append_files() under the path spelling `spell`, the transaction held open for `gap`, then committed /
+        # rolled back
+        df, rows, rel = stage_prebuilt(t, sim, op)
+        res["staged"] = rel
+        res["appends"] = [rows]
+        res["file_op"] = True
+        tx = t.new_transaction().begin()
+        tx.append_files([df])
+        res["registered"] = True
+        if op.get("gap"):
+            sim.sleep(op["gap"])
+        if op.get("rollback"):
+            res["appends"] = []
+            res["file_op"] = False
+            res["rolled_back"] = True
+            return tx.rollback()
+        return tx.commit()
     if kind == "rollback":
         rows = mkrows(op["tag"], op.get("n", 1))
         tx = t.new_transaction().begin()
@@ -322,6 +341,16 @@ def exec_op(ctx: Ctx, op: dict, rec: dict) -> Any:
             res["gc_end_now"] = sim.true_time()
         res["gc"] = r
         return r
+    if kind == "tx_open" and op.get("prebuilt"):
+        df, rows, rel = stage_prebuilt(t, sim, op)
+        parts = [rows]
+        before = set(w.view().list(""))
+        tx = t.new_transaction().begin()
+        tx.append_files([df])
+        files = (set(w.view().list("")) - before) | {rel}
+        ctx.txs[op["id"]] = (tx, parts, files)
+        res["tx_files"] = sorted(files)
+        return True
     if kind == "tx_open":
         parts = [mkrows(op["tag"], op.get("n", 1))]
         before = set(w.view().list(""))
@@ -361,6 +390,29 @@ def exec_op(ctx: Ctx, op: dict, rec: dict) -> Any:
         res["count"] = n
         return n
     raise ValueError(f"unknown op {kind}")
+
+
+def stage_prebuilt(t, sim, op: dict):
+    """Write a parquet file with the harness's own writer under data/, let `age` virtual seconds pass, and describe it
+    as a DataFile under the requested path spelling."""
+    import io
+    import pyarrow as pa
+    import pyarrow.parquet as pq
+    from datashard import DataFile, FileFormat
+    rows = mkrows(op["tag"], op.get("n", 1))
+    arrow = pa.schema([pa.field("tag", pa.string(), nullable=False), pa.field("v", pa.int64())])
+    buf = io.BytesIO()
+    pq.write_table(pa.Table.from_pylist(rows, schema=arrow), buf)
+    content = buf.getvalue()
+    name = "pre_" + op["tag"].replace(".", "_") + ".parquet"
+    t.storage.write_file(f"data/{name}", content)
+    if op.get("age"):
+        sim.sleep(op["age"])
+    spell = {"canon": f"/data/{name}", "noslash": f"data/{name}", "dslash": f"data//{name}",
+             "dot": f"data/./{name}", "dotdot": f"data/sub/../{name}", "dotslash": f"./data/{name}"}[op.get("spell", "canon")]
+    df = DataFile(file_path=spell, file_format=FileFormat.PARQUET, partition_values={}, record_count=len(rows),
+                  file_size_in_bytes=len(content))
+    return df, rows, f"data/{name}"
 
 
 def read_api(t, api: str, op: dict) -> Optional[list]:
